@@ -11,7 +11,7 @@ using namespace verif;
 
 static void usage() {
   std::cerr << "usage: vcheck list | vcheck run <check> [--tier quick|thorough] [--workers N] [--seed S] [--out FILE]\n"
-               "              [--deadline SECONDS] [--only STAGE:INDEX] [--replay ARG] [--timeout-scale X]\n";
+               "              [--deadline SECONDS] [--only STAGE:INDEX [--with-prefix]] [--replay ARG] [--timeout-scale X]\n";
   exit(2);
 }
 
@@ -35,6 +35,7 @@ int main(int argc, char** argv) {
     else if (a == "--timeout-scale") env.timeoutScale = atof(next().c_str());
     else if (a == "--only") { std::string s = next(); size_t c = s.rfind(':'); if (c == std::string::npos) usage(); env.only = true; env.onlyStage = s.substr(0, c); env.onlyIndex = strtoull(s.c_str() + c + 1, nullptr, 10); }
     else if (a == "--replay") env.replayArg = next();
+    else if (a == "--with-prefix") env.onlyWithPrefix = true;
     else usage();
   }
   const Check* chk = nullptr; for (auto& c : registry()) if (c.name == env.checkName) chk = &c;
